@@ -7,6 +7,8 @@ ops:  {"op": "setup", "date": iso}
        "as_dict": bool, "int_as_float": bool}
       {"op": "reform", "date": iso, "group": g, "seed":..., ...}      simulate with a perturbed deep copy of params
       {"op": "rewrite", "function": "module:name"}                     make_vectorizable(func, "numpy")
+      {"op": "inplace", "date": iso, "group": g}      edit nested values of the RETURNED parameters of a fresh environment in
+                                                      place (the documented reform workflow), then forget that environment
 """
 from __future__ import annotations
 
@@ -64,6 +66,19 @@ def module_identities():
     return out
 
 
+def perturb_inplace(node, depth):
+    """scale every numeric leaf below the first level IN PLACE; returns the number of leaves changed"""
+    n = 0
+    items = list(node.items()) if isinstance(node, dict) else list(enumerate(node)) if isinstance(node, list) else []
+    for k, v in items:
+        if isinstance(v, (dict, list)):
+            n += perturb_inplace(v, depth + 1)
+        elif depth >= 1 and isinstance(v, (int, float)) and not isinstance(v, bool):
+            node[k] = v * 1.25 if isinstance(v, float) else v + 1
+            n += 1
+    return n
+
+
 def main():
     hist = json.loads(sys.stdin.read())
     impl.setup()
@@ -102,13 +117,28 @@ def main():
                 snap_d = snapshot_data(data)
                 snap_p = canon(params)
                 snap_f = {k: id(v) for k, v in funcs.items()}
-                out = compute_taxes_and_transfers(data=data, params=params, functions=funcs, targets=op.get("targets"),
+                farg = funcs
+                if op.get("replace") and op["replace"] in funcs:
+                    import props.c06 as c06
+
+                    repl = c06.make_replacement(funcs[op["replace"]], 1)
+                    if hasattr(funcs[op["replace"]], "__info__"):
+                        repl.__info__ = dict(funcs[op["replace"]].__info__)
+                    else:
+                        repl.__name__ = op["replace"]
+                    farg = [funcs, repl]          # the documented list form; funcs is the caller's own collection
+                out = compute_taxes_and_transfers(data=data, params=params, functions=farg, targets=op.get("targets"),
                                                   rounding=op.get("rounding", True))
                 r["digest"] = digest_frame(out)
                 after_d = snapshot_data(data)
                 r["data_modified"] = None if after_d == snap_d else _diff_snap(snap_d, after_d)
                 r["params_modified"] = canon(params) != snap_p
                 r["functions_modified"] = {k: id(v) for k, v in funcs.items()} != snap_f
+            elif op["op"] == "inplace":
+                p, f = set_up_policy_environment(op["date"])
+                n = perturb_inplace(p[op["group"]], 0)
+                r["digest"] = f"perturbed:{n}:" + hashlib.sha1(canon(p[op["group"]]).encode()).hexdigest()
+                envs.pop(op["date"], None)
             elif op["op"] == "rewrite":
                 from _gettsim.vectorization import make_vectorizable
 
